@@ -84,12 +84,12 @@ def lemma_partition(ctx):
             continue
         k = p.ghost["blkn"].t
         off, nbytes = f["off"].t, f["bytes"].t
-        ctx.lemma(eng, "C01: block k starts at start + k*block_size", p.pc, off == start.t + k * bs)
-        ctx.lemma(eng, "C01: every block is non-empty and at most one block long", p.pc, z3.And(nbytes >= 1, nbytes <= bs))
-        ctx.lemma(eng, "C01: every block lies inside the range", p.pc, z3.And(off >= start.t, off + nbytes <= end.t))
+        ctx.lemma(eng, "C01/C11: block k starts at start + k*block_size", p.pc, off == start.t + k * bs)
+        ctx.lemma(eng, "C01/C11: every block is non-empty and at most one block long", p.pc, z3.And(nbytes >= 1, nbytes <= bs))
+        ctx.lemma(eng, "C01/C11: every block lies inside the range", p.pc, z3.And(off >= start.t, off + nbytes <= end.t))
         ctx.lemma(eng, "C01: blocks are contiguous: block k ends where block k+1 starts, the last one ends at range.end",
                   p.pc, z3.If(k + 1 < nblocks, off + nbytes == start.t + (k + 1) * bs, off + nbytes == end.t))
-        ctx.lemma(eng, "C01: the first block starts at range.start", p.pc, z3.Implies(k == 0, off == start.t))
+        ctx.lemma(eng, "C01/C11: the first block starts at range.start", p.pc, z3.Implies(k == 0, off == start.t))
         # C20/C10/C18: each job owns exactly one clone of the handle Arc and one of the updater
         h2 = f["harc"]
         if not (isinstance(h2, OpaqueV) and h2.attrs.get("inner") is harc_inner(p, "harc")):
@@ -179,7 +179,7 @@ def lemma_block_job(ctx):
         for e in copies:
             if e.args[0] != "infd" or e.args[1] != "outfd":
                 ctx.fail("block job copies from the source descriptor to the destination descriptor", str(e.args[:2]))
-            ctx.lemma(eng, "C01/C05: each copy request starts where the previous one stopped and stays inside the block", p.pc,
+            ctx.lemma(eng, "C01/C05/C07: each copy request starts where the previous one stopped and stays inside the block (the remainder shrinks by every count, so the retry loop ends)", p.pc,
                       z3.And(e.args[3].t == off.t + done, e.args[2].t >= 1, e.args[2].t <= nbytes.t - done), info={"trace": names_t})
             if is_errev(e):
                 failed = True
